@@ -642,6 +642,17 @@ def r04_16(ctx: Ctx) -> None:
     cfg = cfg_of(f.node)
     reads = [c for c in q.calls(f) if attr_tail(c) == "read" and "fp" in norm(c.func.value)]
     seeks = [c for c in q.calls(f) if attr_tail(c) == "seek" and "fp" in norm(c.func.value) and c.args and norm(c.args[0]) == f.params[1]]
+    if not reads:
+        # the blocks may come from a generator of the class (`for data in self._blocks(size):`): its call stands for the reads, provided the generator
+        # itself reads the archive handle and does not move it
+        cls_ = ctx.prog.cls("SevenZipFile", "py7zr")
+        for c in q.calls(f):
+            if isinstance(c.func, ast.Attribute) and norm(c.func.value) == "self":
+                m = ctx.prog.method(cls_, c.func.attr)
+                if m is not None and any(isinstance(y, (ast.Yield, ast.YieldFrom)) for y in walk(m.node)) and any(
+                        isinstance(x, ast.Call) and attr_tail(x) == "read" and "fp" in norm(x.func.value) for x in walk(m.node)) and not any(
+                        isinstance(x, ast.Call) and attr_tail(x) == "seek" for x in walk(m.node)):
+                    reads.append(c)
     ctx.floor("R04.16", len(reads), 1, "reads in _read_digest")
     for r in reads:
         ok = any(cfg.dominates(q.node_for(f, s_), q.node_for(f, r)) for s_ in seeks)
